@@ -40,6 +40,21 @@ def agent_loop_b3(out, wd):
         res[True].distinct, res[False].violated))
 
 
+def prune_profile(tier, out, wd):
+    """remotes without links are pruned after prune_remote_delay (explicit clock advances): the link state machine
+    must hold across the pruning (no frames after the remote was dropped, nothing fabricated for late responses)"""
+    q = tier == "quick"
+    scripts, r = e2e.gen_scripts(wd, seed=core.seed() + 99, tag="envP", n=50 if q else 600, maxlen=22, nremotes=3, caps=(64, 4096),
+                                 vlanes=["val"], mlanes=["map"], slanes=["sup"], usecmd=True, faults=("unknown",), advances=(200, 400, 700))
+    cases, results = e2e.run_scripts(wd, scripts, {"store": False, "prune_ms": 600, "drain_after_advance": True}, tag="runP")
+    acc, rej, nev = e2e.validate_cases(out, "C04", "Trace_LinkProtocol", cases, results, e2e.proj_link, CONSTS, wd,
+                                       "link protocol (remote pruning)", tag="tvP")
+    pruned = sum(1 for r_ in results for e in r_["log"] if e["e"] == "closed" and e.get("reason") == "RemoteTimedOut")
+    core.log("[C04] remote pruning: %d scripts, %d projected events, %d remotes pruned, accepted=%d rejected=%d" % (len(cases), nev, pruned, acc, rej))
+    out.add(states=r.generated, transitions=r.generated, remotes_pruned=pruned)
+    return acc, nev
+
+
 def run(tier, out):
     wd = core.workdir("C04")
     agent_loop_b3(out, wd)
@@ -56,6 +71,9 @@ def run(tier, out):
         out.add(states=r.generated, transitions=r.generated)
         if pi == 0 and cases:
             out.sample({"script": cases[0]["acts"][:10], "frames": [e for e in results[0]["log"] if e["e"] == "frame"][:12]})
+    a, n = prune_profile(tier, out, wd)
+    tot_cases += a
+    tot_events += n
     k_writetask.run_k(tier, out, os.path.join(wd, "k"), prop="C04", only=None)
     out.add(traces_validated_against_impl=tot_cases, trace_events_validated=tot_events,
             rule="scripts are behaviours of AgentEnv.tla (TLC simulation, seeded); every recorded execution of the real agent+runtime is validated against Trace_LinkProtocol.tla",
